@@ -232,7 +232,12 @@ def quick_extra_configs(sub):
         return []          # sub-checks with their own environment already span the back ends
     if os.environ.get("VERIF_SAN") == "1":
         return []          # sanitizer suites (C17) choose their configurations themselves
-    return [c for c in sub.thorough_configs if c not in sub.configs]
+    extra = [c for c in sub.thorough_configs if c not in sub.configs]
+    # the configuration closest to the embedded target (32-bit words, ARM binding layer, unsigned plain char) for every sub-check
+    # that runs on the stock library configurations
+    if "asm" in sub.configs and "glue-v6m" not in extra and "glue-v6m" not in sub.configs:
+        extra.append("glue-v6m")
+    return extra
 
 
 def _worker(mod, pid, tier, vseed, worker, nworkers, only_sub, conn, journal=None):
